@@ -651,10 +651,14 @@ def _truth(v):
         op, left, right = v[1][0], v[2], v[3][0]
         if left[0] == "const" and right[0] == "const":
             a, b = left[1], right[1]
+            import operator as _o
+            fn_ = {"Gt": _o.gt, "GtE": _o.ge, "Lt": _o.lt, "LtE": _o.le,
+                   "Eq": _o.eq, "NotEq": _o.ne, "Is": _o.is_,
+                   "IsNot": _o.is_not}.get(op)
+            if fn_ is None:
+                return None
             try:
-                return {"Gt": a > b, "GtE": a >= b, "Lt": a < b, "LtE": a <= b,
-                        "Eq": a == b, "NotEq": a != b,
-                        "Is": a is b, "IsNot": a is not b}.get(op)
+                return bool(fn_(a, b))
             except TypeError:
                 return None
         # an indexed child is taken to be present (the all-non-None case)
@@ -675,9 +679,20 @@ def _src(n):
 # convenience
 # ---------------------------------------------------------------------------
 
+_INLINE_HOOK = None
+
+
+def set_inline_hook(hook):
+    """hook(fn) -> fn with calls to new private helpers inlined (pv/inline.py)"""
+    global _INLINE_HOOK
+    _INLINE_HOOK = hook
+
+
 def summarize(fn, *, fields=(), props=None, loop_mode="1", assume_len=None,
               rec_names=None, self_is_node=False, node_param=None, plain=False):
     """All feasible path summaries of *fn*."""
+    if _INLINE_HOOK is not None:
+        fn = _INLINE_HOOK(fn)
     out = []
     for items in cfg.paths(fn, loop_mode):
         ev = Evaluator(fn, fields=fields, props=props, assume_len=assume_len,
